@@ -71,6 +71,8 @@ def histories(tier):
     seen = set()
     for p in prefixes:
         for t in tails:
+            if len(p) >= 5 and len(t) > 2:
+                continue        # the long (churned) prefixes get tails of <= 2 operations
             h = p + t
             if valid(h) and tuple(h) not in seen:
                 # drop histories whose tail is only no-ops on an absent table
